@@ -29,7 +29,7 @@ CRATES = {
 }
 
 CHECK_RE = re.compile(
-    r"^Check (\d+): (.+)\n\s+- Status: (\w+)\n\s+- Description: \"(.*)\"\n(?:\s+- Location: (.*)\n)?",
+    r"^Check (\d+): (.+)\n\s+- Status: (\w+)\n\s+- Description: \"((?:.|\n)*?)\"\n(?:\s+- Location: (.*)\n)?(?=\n|Check |\Z)",
     re.M,
 )
 
